@@ -249,10 +249,11 @@ func TestC16(t *testing.T) {
 // C10 (simulated part): restart from any persisted snapshot recovers a consistent, faithful state.
 func TestC10Sim(t *testing.T) {
 	cfg := &Cfg{Prop: "C10", MaxPipelines: 2, MaxTasks: 3, DelayPct: 30, ReplacePct: 20, CyclicPct: 5, AllowFailPct: 25, ContinuePct: 40, DiskStore: true, RichPayload: true,
-		LimitChoices: []int{-1, -1, 2, 3, 0}, Weights: map[string]int{"schedule": 32, "cancel": 10, "finish": 30, "timer": 8, "hold": 4, "release": 5, "restart": 9},
-		Armed: map[string]bool{"C10": true}}
+		LimitChoices: []int{-1, -1, 2, 3, 0}, Weights: map[string]int{"schedule": 32, "cancel": 10, "finish": 30, "timer": 8, "hold": 4, "release": 5, "restart": 9, "reload": 5},
+		ReloadKinds: []string{"rewire", "rewire", "script", "allowFailure", "addTask", "removeTask", "env", "delay", "conc"},
+		Armed:       map[string]bool{"C10": true}}
 	runHistories(t, histOpts{cfg: cfg, failPct: 30,
-		rule: "simulator histories over a real JsonDataStore with rich payloads (variables of every JSON shape incl. non-integer numbers, odd users, error texts, exit codes over int16); at generated points (any state: loops held, tasks mid-run, jobs waiting with pending timers) the reported state of every job is recorded (Go API at full precision and /job/detail JSON), the store is saved and a second runner is built from the same directory; oracle: every job terminal, running/waiting ones canceled, every pipeline schedulable and not running, id set unchanged, finished jobs reported field by field as before (flags, timestamps, tasks with status/exit code/error, variables by deep equality, user, last error); non-trivial = a probe whose snapshot holds a finished job and a running or waiting job, in a history with a failed task or a non-integer number; distinct by action trace",
+		rule: "simulator histories over a real JsonDataStore, with reloads that edit the tasks of a pipeline (dependencies, scripts, allow_failure, tasks added and removed) between a job's end and the restart, with rich payloads (variables of every JSON shape incl. non-integer numbers, odd users, error texts, exit codes over int16); at generated points (any state: loops held, tasks mid-run, jobs waiting with pending timers) the reported state of every job is recorded (Go API at full precision and /job/detail JSON), the store is saved and a second runner is built from the same directory; oracle: every job terminal, running/waiting ones canceled, every pipeline schedulable and not running, id set unchanged, finished jobs reported field by field as before (flags, timestamps, tasks with status/exit code/error, variables by deep equality, user, last error); non-trivial = a probe whose snapshot holds a finished job and a running or waiting job, in a history with a failed task or a non-integer number; distinct by action trace",
 		nontrivial: func(c map[string]int) bool {
 			return c["restart:with-finished"] > 0 && (c["restart:with-running"] > 0 || c["restart:with-waiting"] > 0) && (c["restart:with-failed-task"] > 0 || c["payload:non-integer-number"] > 0)
 		}})
